@@ -41,6 +41,19 @@ def Store.putOneF (o : WOpts) (s : Store) (c : Cid) (d : Bytes) (fault : Option 
       let s' := { s.applyEvs evs with pos := s.pos + sectionSize ⟨c, d⟩, idx := s.idx.insert ⟨c, s.pos⟩ }
       (s', .ok, evs)
 
+/-- PutMany under an optional fault: block by block, like Put; the fault's call index counts the
+    write calls of the whole batch. The blocks before the failing one are stored (written, indexed)
+    exactly as by single Puts; the failing one is undone. Also returns how many blocks were stored
+    or skipped before the batch ended. -/
+def Store.putManyF (o : WOpts) (s : Store) : List Block → Option Fault → Store × Out × List WriteEv × Nat
+  | [], _ => (s, .ok, [], 0)
+  | b :: bs, fault =>
+    match s.putOneF o b.cid b.data fault with
+    | (s', .ok, evs) =>
+      let r := Store.putManyF o s' bs (fault.map fun f => ⟨f.call - evs.length, f.bytes⟩)
+      (r.1, r.2.1, evs ++ r.2.2.1, r.2.2.2 + 1)
+    | (s', out, evs) => (s', out, evs, 0)
+
 /-- Finalize under an optional fault: the partial index/header stays, the store is closed/finalised
     and reports the error; nothing can succeed afterwards. -/
 def Store.finalizeF (o : WOpts) (s : Store) (fault : Option Fault) : Store × Out × List WriteEv :=
